@@ -1,6 +1,7 @@
 package main
 
 import (
+	"encoding/json"
 	"fmt"
 	"math"
 	"reflect"
@@ -195,7 +196,7 @@ func genGo(g *Gen, depth int, forField bool) (interface{}, J) {
 			}
 			sf := reflect.StructField{Name: names[i], Type: reflect.TypeOf(v)}
 			if tag != "" {
-				sf.Tag = reflect.StructTag(`clover:"` + tag + `"`)
+				sf.Tag = reflect.StructTag(`clover:"` + tag + `" json:"` + tag + `"`)
 			}
 			fields = append(fields, sf)
 			vals = append(vals, v)
@@ -274,6 +275,7 @@ func streamC18(c *Ctx) {
 	defer dr.Close()
 	g := NewGen(c.Rng, Domain{})
 	n := c.N(15000, 200000)
+	modelOff := false
 	for i := 0; i < n; i++ {
 		v, dj := genGo(g, 3, false)
 		line := J{"k": "norm", "v": dj}
@@ -292,10 +294,30 @@ func streamC18(c *Ctx) {
 			c.Violation(&Replay{Stream: "norm", Case: []interface{}{line}, Actual: []string{got}, Note: "Normalize returned a value that is not made of canonical types (int64, uint64, float64, string, bool, time.Time, nil, map, slice)"})
 			return
 		}
-		m := dr.Ask(line)
-		if (err != nil) != (len(m) >= 3 && m[:3] == "err") || (err == nil && m != got) {
-			c.Unexplained(&Replay{Stream: "norm", Case: []interface{}{line}, Expected: []string{m}, Actual: []string{got}}, "correspondence K-C18/normalize")
-			return
+		// tags, without the model: the struct carries the same tag text for encoding/json, whose rules for names and
+		// omitempty are the ones the clover tag documents; the two must agree on which keys a struct produces
+		if rm, isMap := res.(map[string]interface{}); isMap && err == nil && dj["g"] == "struct" {
+			if want, ok := jsonKeySet(v); ok {
+				have := []string{}
+				for k := range rm {
+					have = append(have, k)
+				}
+				sort.Strings(have)
+				if fmt.Sprint(have) != fmt.Sprint(want) {
+					c.Violation(&Replay{Stream: "norm", Case: []interface{}{line}, Expected: []string{fmt.Sprint(want)}, Actual: []string{fmt.Sprint(have)},
+						Note: "the keys a tagged struct becomes differ from what the same tags (name, omitempty) mean to encoding/json"})
+					return
+				}
+				c.Count("struct-keys-vs-encoding/json")
+			}
+		}
+		if !modelOff {
+			m := dr.Ask(line)
+			if (err != nil) != (len(m) >= 3 && m[:3] == "err") || (err == nil && m != got) {
+				// recorded once; the loop goes on with the laws that need no model, looking for an input on which the property fails
+				c.Unexplained(&Replay{Stream: "norm", Case: []interface{}{line}, Expected: []string{m}, Actual: []string{got}}, "correspondence K-C18/normalize")
+				modelOff = true
+			}
 		}
 		if dj["g"] == "list" || dj["g"] == "map" || dj["g"] == "struct" || dj["g"] == "ptr" {
 			c.NonTrivial(fmt.Sprint(dj))
@@ -323,6 +345,9 @@ func streamC18(c *Ctx) {
 			if !doc.Has(path) || canonValue(doc.Get(path)) != canonValue(res) {
 				c.Violation(&Replay{Stream: "norm", Case: []interface{}{line}, Expected: []string{canonValue(res)}, Actual: []string{canonValue(doc.Get(path))}, Note: "Get/Has do not agree with Set on path " + path})
 				return
+			}
+			if modelOff {
+				continue
 			}
 			// the model's path assignment
 			pm := dr.Ask(J{"k": "path", "doc": encDoc(map[string]interface{}{"keep": int64(1)}), "path": hx(path), "v": encValue(res)})
@@ -1158,4 +1183,41 @@ func derefOuter(o RtOuter) interface{} {
 	}
 	sort.Strings(dk)
 	return []interface{}{o.ID, o.Created.UnixNano(), o.Name, o.In, pin, fmt.Sprintf("%+v", o.List), o.Arr, keys(o.M), pl, strings.Join(dk, ","), fmt.Sprintf("%+v", o.LL), o.Score, fmt.Sprint(len(o.Tags), o.Tags)}
+}
+
+// jsonKeySet: the top-level keys encoding/json gives a struct value; ok=false when encoding/json cannot encode the value or
+// when two fields claim one name (encoding/json then drops fields, clover keeps the last one - not a tag question)
+func jsonKeySet(v interface{}) ([]string, bool) {
+	rv := reflect.ValueOf(v)
+	if rv.Kind() != reflect.Struct {
+		return nil, false
+	}
+	names := map[string]bool{}
+	for i := 0; i < rv.NumField(); i++ {
+		f := rv.Type().Field(i)
+		name := f.Name
+		if t, ok := f.Tag.Lookup("json"); ok {
+			if n := strings.Split(t, ",")[0]; n != "" {
+				name = n
+			}
+		}
+		if names[name] || f.Anonymous {
+			return nil, false
+		}
+		names[name] = true
+	}
+	b, err := json.Marshal(v)
+	if err != nil {
+		return nil, false
+	}
+	var m map[string]json.RawMessage
+	if json.Unmarshal(b, &m) != nil {
+		return nil, false
+	}
+	keys := []string{}
+	for k := range m {
+		keys = append(keys, k)
+	}
+	sort.Strings(keys)
+	return keys, true
 }
